@@ -950,12 +950,11 @@ check_split_fn(const char *fn, int query, const uint8_t *s, size_t len, int ref_
       continue;
     const char *cl = classify(!query, R, &G, last_raw_is_dot);
     if (size < need && strcmp(cl, "trailing-dot-segment")) {
-      if (!small_flagged) {
-        snprintf(sig, sizeof sig, "uri-mismatch:%s:small-buffer-not-reported", fn);
-        failx(sig, "%s(%s) with buflen=%zu (needs %zu) returns %d = %s instead of an error; complete result is %s", fn,
-              show(s, len), size, need, c->ret, show_list(&G), show_list(R));
-        small_flagged = 1;
-      }
+      /* Oracle correction (coordinator): a too small output buffer only truncates the result.  The property statement
+       * does not ask for an error here and the repository's own tests (t_parse_uri15/16) require the 0 return; what is
+       * checked for short buffers is that nothing is written outside them (ASan, exact-size heap buffer) and that the
+       * output is a well-formed option encoding (checked above). */
+      (void)small_flagged;
       continue;
     }
     snprintf(sig, sizeof sig, "uri-mismatch:%s:%s", fn, cl);
